@@ -35,6 +35,35 @@ fn common_ref(ty: &RType, ns: &str, t: &mut Option<&mut Tape>) -> Option<String>
     }
 }
 
+thread_local! {
+    /// fully qualified names of the entity and common types declared by the schema being printed
+    static DECLARED: std::cell::RefCell<std::collections::BTreeSet<String>> = const { std::cell::RefCell::new(std::collections::BTreeSet::new()) };
+}
+
+fn set_declared(s: &RSchema) {
+    let mut d: std::collections::BTreeSet<String> = s.entity_types.iter().map(|e| e.name.clone()).collect();
+    COMMONS.with(|c| {
+        for (ns, n, _) in c.borrow().iter() {
+            d.insert(if ns.is_empty() { n.clone() } else { format!("{ns}::{n}") });
+        }
+    });
+    DECLARED.with(|x| *x.borrow_mut() = d);
+}
+
+/// the name of a built-in (primitive or extension) type as it must be written inside namespace `ns` where unqualified
+/// names resolve to declared types first: `__cedar::B` when shadowed, and at random otherwise
+fn builtin_name(base: &str, ns: &str, t: &mut Option<&mut Tape>) -> String {
+    let shadowed = DECLARED.with(|d| {
+        let d = d.borrow();
+        d.contains(base) || (!ns.is_empty() && d.contains(&format!("{ns}::{base}")))
+    });
+    if shadowed || t.as_mut().map(|t| t.bool_p(1, 8)).unwrap_or(false) {
+        format!("__cedar::{base}")
+    } else {
+        base.to_string()
+    }
+}
+
 fn commons_in(ns: &str) -> Vec<Common> {
     COMMONS.with(|c| c.borrow().iter().filter(|(cns, _, _)| cns == ns).cloned().collect())
 }
@@ -56,6 +85,14 @@ pub fn type_json(ty: &RType, ns: &str, t: &mut Option<&mut Tape>) -> J {
         return if t.as_mut().map(|t| t.coin()).unwrap_or(false) { json!({"type": "EntityOrCommon", "name": n}) } else { json!({"type": n}) };
     }
     match ty {
+        RType::Bool | RType::Long | RType::Str if t.as_mut().map(|t| t.bool_p(1, 6)).unwrap_or(false) => {
+            let base = match ty {
+                RType::Bool => "Bool",
+                RType::Long => "Long",
+                _ => "String",
+            };
+            json!({"type": "EntityOrCommon", "name": builtin_name(base, ns, t)})
+        }
         RType::Bool => json!({"type": "Boolean"}),
         RType::Long => json!({"type": "Long"}),
         RType::Str => json!({"type": "String"}),
@@ -70,7 +107,7 @@ pub fn type_json(ty: &RType, ns: &str, t: &mut Option<&mut Tape>) -> J {
         RType::Rec(attrs) => json!({"type": "Record", "attributes": attrs_json(attrs, ns, t)}),
         RType::Ext(n) => {
             if t.as_mut().map(|t| t.bool_p(1, 3)).unwrap_or(false) {
-                json!({"type": "EntityOrCommon", "name": *n})
+                json!({"type": "EntityOrCommon", "name": builtin_name(n, ns, t)})
             } else {
                 json!({"type": "Extension", "name": *n})
             }
@@ -93,6 +130,7 @@ pub fn attrs_json(attrs: &RAttrs, ns: &str, t: &mut Option<&mut Tape>) -> J {
 }
 
 pub fn schema_json(s: &RSchema, mut t: Option<&mut Tape>) -> J {
+    set_declared(s);
     let mut out = Map::new();
     for ns in s.namespaces() {
         let mut ets = Map::new();
@@ -169,13 +207,13 @@ pub fn type_cedar(ty: &RType, ns: &str, t: &mut Option<&mut Tape>) -> String {
         return n;
     }
     match ty {
-        RType::Bool => "Bool".into(),
-        RType::Long => "Long".into(),
-        RType::Str => "String".into(),
+        RType::Bool => builtin_name("Bool", ns, t),
+        RType::Long => builtin_name("Long", ns, t),
+        RType::Str => builtin_name("String", ns, t),
         RType::Ent(n) => rel_name(n, ns, t),
         RType::Set(el) => format!("Set<{}>", type_cedar(el, ns, t)),
         RType::Rec(attrs) => attrs_cedar(attrs, ns, t),
-        RType::Ext(n) => ext_cedar_name(n).to_string(),
+        RType::Ext(n) => builtin_name(ext_cedar_name(n), ns, t),
     }
 }
 
@@ -185,6 +223,7 @@ pub fn attrs_cedar(attrs: &RAttrs, ns: &str, t: &mut Option<&mut Tape>) -> Strin
 }
 
 pub fn schema_cedar(s: &RSchema, mut t: Option<&mut Tape>) -> String {
+    set_declared(s);
     let mut out = String::new();
     for ns in s.namespaces() {
         let mut body = String::new();
